@@ -564,6 +564,27 @@ func TestPoolSelfConsistency(t *testing.T) {
 			}
 			hist = append(hist, fmt.Sprintf("%d certificate broadcast rounds", rounds))
 			evid.R.Label("broadcast-rounds", 1)
+			// a commit that was already gossiped arrives again on the direct path (Certify adds without the Has pre-check of the gossip
+			// validator: a restarted node certifies the same range again; a validator re-sends): the pool must stay a set (added after
+			// seeded change C06-t: Add compared with the not-yet-gossiped list only)
+			if rapid.Bool().Draw(t, "recertifyAfterGossip") {
+				for h := uint32(1); h <= tip; h++ {
+					cs := n.Exec.VerifPoolCommits(h)
+					if len(cs) == 0 {
+						continue
+					}
+					k := node.KeyByAddr(cs[rapid.IntRange(0, len(cs)-1).Draw(t, "recertifyWho")].ValidatorAddress())
+					if k == nil {
+						continue
+					}
+					if err := n.Exec.Certify(h-1, h, k.Addr, k.BLSPriv); err != nil {
+						t.Fatalf("Certify: %v", err)
+					}
+					hist = append(hist, fmt.Sprintf("Certify(%d,%d) again by %d after the broadcast rounds", h-1, h, k.Index))
+					evid.R.Label("recertified-after-gossip", 1)
+					break
+				}
+			}
 		}
 		// own certification (what the generator does on finalization)
 		if rapid.Bool().Draw(t, "certify") && pc > 0 {
